@@ -539,6 +539,12 @@ int vnadata_convert(const vnadata_t *vdp_in, vnadata_t *vdp_out,
 	} else {
 	    int frequencies = vdp_in->vd_frequencies;
 
+	    /*
+	     * Per-frequency mode, also when there is no frequency.
+	     */
+	    if (_vnadata_convert_to_fz0(VDP_TO_VDIP(vdp_out)) == -1) {
+		return -1;
+	    }
 	    for (int findex = 0; findex < frequencies; ++findex) {
 		if (vnadata_set_fz0_vector(vdp_out, findex,
 			    vdip_in->vdi_z0_vector_vector[findex]) == -1) {
